@@ -168,6 +168,8 @@ Unary(op, x, k) ==
                          /\ ev' = Ev(op, x, x, k, acc, FALSE, <<<<QuadForm(Denote(x.ts, NQ), StateK(k))>>>>)
     [] op = "circuit" -> x.t = "term" /\ k = 0 /\ Width(x.ts) >= 1 /\ acc' = acc
                          /\ ev' = Ev(op, x, x, Width(x.ts), acc, FALSE, CircuitMech(x.ts[1].ops, Width(x.ts)))
+    \* the matrix an operator denotes, expanded in the Pauli basis again (Hermitian, symmetric, neither: the expansion may not branch on it)
+    [] op = "matrixof" -> x.t # "num" /\ k = 0 /\ acc' = FromMatrix(D(x), NQ) /\ ev' = Ev(op, x, x, 0, acc', FALSE, D(x))
     [] op = "frommatrix" -> k \in 1..(4^NQ) /\ acc' = FromMatrix(MatUnit(((k - 1) \div 2^NQ) + 1, ((k - 1) % 2^NQ) + 1, NQ), NQ)
                          /\ ev' = Ev(op, x, x, k, acc', FALSE, NoM)
 BinOps == {"add", "sub", "mul", "div", "eq"}
@@ -206,6 +208,7 @@ SparseIsDefinition == ev.op = "sparse" => ev.m = Denote(ev.x.ts, ev.k)
 HermConjIsAdjoint == ev.op = "conj" => D(ev.res) = MAdj(D(ev.x))
 IsHermitianIffMatrixIs == (ev.op = "isherm" /\ IsSimplified(ev.x)) => (ev.b <=> (D(ev.x) = MAdj(D(ev.x))))
 MatrixPauliRoundTrip == ev.op = "frommatrix" => D(ev.res) = MatUnit(((ev.k - 1) \div 2^NQ) + 1, ((ev.k - 1) % 2^NQ) + 1, NQ)
+MatrixOfOperatorRoundTrip == ev.op = "matrixof" => D(ev.res) = D(ev.x) /\ IsSimplified(ev.res)
 ReverseIsBitReversal == ev.op = "reverse" =>
     /\ Denote(ev.res.ts, ev.k) = BitRevConj(Denote(ev.x.ts, ev.k), ev.k)
     /\ Denote(ReverseV(ev.res, ev.k).ts, ev.k) = Denote(ev.x.ts, ev.k)          \* twice = identity
